@@ -66,8 +66,9 @@ class NoInit:
     a: int = 0
     t: int = dataclasses.field(init=False, default=9)
 '''
-OTHER_A = "import dataclasses\n@dataclasses.dataclass\nclass Thing:\n    x: int\ndef call1(f, *a, **k):\n    return f(*a, **k)\n"
-OTHER_B = "import dataclasses\n@dataclasses.dataclass\nclass Thing:\n    x: str\ndef call1(f, *a, **k):\n    return f(*a, **k)\n"
+OTHER_A = "import dataclasses\n@dataclasses.dataclass\nclass Thing:\n    x: int\nPayload = bytes\ndef call1(f, *a, **k):\n    return f(*a, **k)\n"
+OTHER_B = ("import dataclasses\n@dataclasses.dataclass\nclass Thing:\n    x: str\n@dataclasses.dataclass\nclass Payload:\n    n: int = 0\n"
+           "def call1(f, *a, **k):\n    return f(*a, **k)\n")
 
 
 @functools.lru_cache(maxsize=None)
@@ -204,6 +205,24 @@ def alphabet():
     ma("m({1:'x'},dict[str,str])", "num", lambda: dict[str, str], lambda: {1: "x"})
     ma("m({1.0:'x'},dict[str,str])", "num", lambda: dict[str, str], lambda: {1.0: "x"})
     ma("m({True:'x'},dict[str,str])", "num", lambda: dict[str, str], lambda: {True: "x"})
+    # variadic, fixed and empty tuples (one origin, three routine classes) and bool / int (one routine class, two primitives)
+    um("u(tuple[int,...],['1','2','3'])", "tuple", lambda: tuple[int, ...], lambda: ["1", "2", "3"])
+    um("u(tuple[str,int],['1','2'])", "tuple", lambda: tuple[str, int], lambda: ["1", "2"])
+    um("u(tuple[int],['1'])", "tuple", lambda: tuple[int], lambda: ["1"])
+    um("u(tuple[()],[])", "tuple", lambda: tuple[()], lambda: [])
+    ma("m((1,'2'),tuple[str,int])", "tuple", lambda: tuple[str, int], lambda: (1, "2"))
+    ma("m((1,2),tuple[str,...])", "tuple", lambda: tuple[str, ...], lambda: (1, 2))
+    um("u(list[int],['1','2'])", "tuple", lambda: list[int], lambda: ["1", "2"])
+    ma("m(True,bool)", "num", bool, lambda: True)
+    ma("m(5,int)", "num", int, lambda: 5)
+    ma("m(True,int)", "num", int, lambda: True)
+    ma("m(1,bool)", "num", bool, lambda: 1)
+    ma("m(2.0,float)", "num", float, lambda: 2.0)
+    # one bare name that is a bytes-like type in module A and a class in module B, through the top-level entry points
+    ops.append(Op("A:encode(b'x','Payload')", "refs", "encode", lambda x: a["call1"](typelib.encode, x, t="Payload"), lambda: b"x"))
+    ops.append(Op("B:encode(Payload(7),'Payload')", "refs", "encode", lambda x: b["call1"](typelib.encode, x, t="Payload"), lambda: b["Payload"](7)))
+    ops.append(Op("A:decode('Payload',b'x')", "refs", "decode", lambda x: a["call1"](typelib.decode, "Payload", x), lambda: b"x"))
+    ops.append(Op("B:decode('Payload',json)", "refs", "decode", lambda x: b["call1"](typelib.decode, "Payload", x), lambda: b'{"n": "7"}'))
     ops.append(Op("build-codec(list[int])", "json", "build", lambda x: type(typelib.codec(list[int])).__name__, lambda: None))
     ops.append(Op("ENV:mutate-results", "env", "env", None))
     ops.append(Op("ENV:mutate-inputs", "env", "env", None))
